@@ -98,3 +98,14 @@ CHECKS["C08"] = dict(
          "and four sub-ranges and must terminate with a strictly increasing address column that contains every instruction start.",
     note="Sanitizer findings are the first trigger per code location per cell (ASan deduplicates in recover mode); CPUs whose range printer's address "
          "column cannot be calibrated (octal or page/offset formats) are reported unjudged; Java/WebAssembly/.NET are exempt from the upper length bound.")
+
+CHECKS["C07"] = dict(
+    level="model_checking", design_ref="DESIGN.md 4/C07",
+    technique="exhaustive enumeration of machine-word cells through every decoder; every distinct rendering is re-assembled by the real assembler at "
+              "the same address and the produced bytes are decoded again (fixpoint oracle with numeric normalisation)",
+    text="For all 68 CPUs every distinct rendering the single-instruction decoders produce over the exhausted cells (65 536 values of the leading "
+         "half-word, and of the second half-word for 32-bit ISAs, x 2 (thorough 4) operand fills x 1 (3) addresses; about 5 (16) million renderings) is "
+         "assembled verbatim at the same address; if accepted, the emitted bytes must decode to one instruction with the same mnemonic and operands "
+         "after numeric normalisation.",
+    note="One assembly per distinct rendering stands for all byte strings that decode to it; 'alias -- underlying form' renderings agree if either "
+         "part agrees; rejected renderings are counted per CPU (low-coverage CPUs are listed in the evidence), never judged.")
